@@ -9,7 +9,7 @@ RULE = ("Bounded-exhaustive: every sequence of length 0..N over link kinds {awai
         "generator, __await__ returning a coroutine wrapper, __await__ running a delegating generator, asend(None), asend(<an async generator object>), __anext__, "
         "async for, athrow, aclose} x terminal {trap, plain-iterator leaf, falsy future-like leaf that is its own iterator, future-like leaf that speaks the generator protocol (send/throw/close) without being a generator} x outer kind {coroutine, generator-based "
         "coroutine} x {links suspend first themselves, or not}; plus pure yield-from generator chains, plus ten deep chains (60-150 links, plain and mixed); every suspension "
-        "point k of each (chain rebuilt and advanced k steps), plus the exhausted state. Oracle: frames and line numbers of "
+        "point k of each (chain rebuilt and advanced k steps), plus the exhausted state (the root and every coroutine / generator / async generator the chain was made of: no frames once finished or closed, only its own frame when parked at its own yield). Oracle: frames and line numbers of "
         "the traceback of an exception thrown into the root right after extraction. evaluations = (chain, position) "
         "observations; distinct_nontrivial = distinct chain specs with at least one link.")
 ASSUMPTIONS = ["the async_generator backport types are not in the alphabet",
@@ -43,6 +43,22 @@ def observe(spec, k):
                 problems.append("exhausted target has frames %r" % ([f.funcname for f in st.frames],))
             if st.root is not root:
                 problems.append("root is not the target")
+            # every generator-like object the chain was made of: those that ran to completion have no frames; an async
+            # generator that is left parked at a yield of its own has exactly its own frame
+            for phase in ("exhausted", "closed"):
+                if phase == "closed":
+                    ch.close()
+                for o in ch.objs:
+                    fr = None
+                    for attr in ("cr_frame", "gi_frame", "ag_frame"):
+                        fr = getattr(o, attr, None) or fr
+                    exp_o = [fr] if fr is not None else []
+                    with warnings.catch_warnings(record=True) as w:
+                        warnings.simplefilter("always")
+                        so = stackscope.extract(o)
+                    if [f.pyframe for f in so.frames] != exp_o or so.error is not None or so.root is not o or w:
+                        problems.append("%s member %r: frames %r expected %r error %r warnings %r" % (
+                            phase, o, [f.funcname for f in so.frames], [f.f_code.co_name for f in exp_o], so.error, [str(x.message)[:80] for x in w]))
             return "exhausted", problems
         with warnings.catch_warnings(record=True) as w:
             warnings.simplefilter("always")
